@@ -489,11 +489,11 @@ theorem compileClause_fact (head : Rep) (raw : Term) (r : String × Nat × CStat
 
 theorem wf_seqGoals (b : Rep) (hw : WF b = true) : ∀ g ∈ seqGoals b, WF g = true := by
   fun_induction seqGoals b with
-  | case1 a b ih =>
+  | case1 a b iha ih =>
     intro g hg
     simp only [WF, WFs, Bool.and_eq_true] at hw
-    rcases List.mem_cons.1 hg with rfl | hg
-    · exact hw.2.1
+    rcases List.mem_append.1 hg with hg | hg
+    · exact iha hw.2.1 g hg
     · exact ih hw.2.2.1 g hg
   | case2 g hne =>
     intro g' hg'
